@@ -75,6 +75,7 @@ type HarnessSpec struct {
 	UnwindViol    bool             `json:"unwind_viol"`    // unwinding failure is the violation (termination properties)
 	DeadlockOK    bool             `json:"deadlock_ok"`    // deadlock is inconclusive instead of a violation
 	TimeBudgetS   int              `json:"time_budget_s"`
+	PartialOK     bool             `json:"partial_ok"` // thorough tiers: exhausting the time budget ends the exploration of the bound, reported as PARTIAL (not a verdict on the unexplored rest)
 	DivAxioms     bool             `json:"div_axioms"`     // encode x/c, x%c (c constant) by x = q*c + r instead of bvsdiv/bvsrem
 	Solver        string           `json:"solver"`         // path solver: z3 (default) | z3-new | cvc5 | cvc5-int
 	ReplayRetries int              `json:"replay_retries"` // native replay: retry with salted verifHashKey inputs (hash-dependent counterexamples)
@@ -451,7 +452,7 @@ func (w *World) effective(h *HarnessDecl) (*HarnessSpec, error) {
 		for k := range probe {
 			known[k] = true
 		}
-		for _, k := range []string{"div_axioms", "solver", "arith", "replay_retries", "float", "sched", "maporder", "sort", "pool", "unwind", "max_decisions", "max_depth", "max_threads", "preempt", "concretize_max", "max_alloc", "max_steps", "max_paths", "feas_ms", "assert_ms", "clock_lo", "clock_hi", "clock_nanos", "panic_ok", "unwind_viol", "deadlock_ok", "time_budget_s", "params", "fix"} {
+		for _, k := range []string{"div_axioms", "solver", "arith", "replay_retries", "float", "sched", "maporder", "sort", "pool", "unwind", "max_decisions", "max_depth", "max_threads", "preempt", "concretize_max", "max_alloc", "max_steps", "max_paths", "feas_ms", "assert_ms", "clock_lo", "clock_hi", "clock_nanos", "panic_ok", "unwind_viol", "deadlock_ok", "time_budget_s", "partial_ok", "params", "fix"} {
 			known[k] = true
 		}
 		rest := map[string]interface{}{}
